@@ -76,7 +76,8 @@ def gen_case(st, tier, env):
                 a = {"alg": "ParCons", "aux": a, "bound": k.choice([0, 1, 2])}
         else:
             a = gen.gen_alg(w, env)
-        configs.append({"alg": a, "sched": gen.gen_sched(st.schedule)})
+        configs.append({"alg": a, "sched": gen.gen_sched(st.schedule),
+                        "bench": k.choice([None, None, None, None, True, False])})
     case = {"complete": comp, "incomplete": inc, "scheme": scheme, "configs": configs}
     if k.random() < 0.25:
         case["second_pass"] = gen.gen_mutation(w)  # edit the incomplete dataset in place, then ask everything again
@@ -155,7 +156,7 @@ def _run_pass(case, ctx, mutation, shared):
         # (c) complete data is never refused --------------------------------------------------------------
         if comp_is_complete:
             try:
-                out = run_alg(spec, dc, sc, one, cf["sched"], alg=alg)
+                out = run_alg(spec, dc, sc, one, cf["sched"], alg=alg, bench=cf.get("bench"))
                 ctx.event("complete-run", label, out.brief(), out.picks)
                 if out.kind != "returned":
                     ctx.violate("C14/complete-refused", f"{out.kind}: {exc_label(out.exc)}: {str(out.exc)[:160]}",
@@ -174,7 +175,7 @@ def _run_pass(case, ctx, mutation, shared):
         # (b)+(d) incomplete data vs. the declaration -------------------------------------------------------
         if inc_is_incomplete and declared is not None:
             try:
-                out = run_alg(spec, di, sc, one, cf["sched"], alg=alg)
+                out = run_alg(spec, di, sc, one, cf["sched"], alg=alg, bench=cf.get("bench"))
             except Discard:
                 ctx.probe("discarded_stub_capacity")
                 continue
